@@ -594,6 +594,43 @@ class Ctx:
         self.rng = random.Random(seed)
 
 
+# No property may depend on the logging configuration of the process: about half of the cases (a function of the case itself,
+# so that a replay reproduces it) run with DEBUG logging enabled and every record formatted - lazy %-formatting of log
+# arguments then really happens (a repr() that reads a cache, an accessor with a side effect).
+class _FormatAndDrop(__import__("logging").Handler):
+    def emit(self, record):
+        try:
+            record.getMessage()
+        except Exception:
+            pass
+
+
+_LOG_HANDLER = _FormatAndDrop()
+
+
+def case_wants_debug_logging(c):
+    import zlib
+    try:
+        return zlib.crc32(canon(c).encode("utf-8", "replace")) % 2 == 0
+    except Exception:
+        return False
+
+
+def set_debug_logging(on):
+    import logging
+    root = logging.getLogger()
+    if on:
+        if _LOG_HANDLER not in root.handlers:
+            root.addHandler(_LOG_HANDLER)
+        root.setLevel(logging.DEBUG)
+        logging.getLogger("swh").setLevel(logging.DEBUG)
+    else:
+        if _LOG_HANDLER in root.handlers:
+            root.removeHandler(_LOG_HANDLER)
+        root.setLevel(logging.WARNING)
+        logging.getLogger("swh").setLevel(logging.NOTSET)
+
+
 def evaluate_cases(P, cases):
     """Run cases through implementation and model; returns list of
     (case, impl_res, model_res, verdict) where verdict is None (agree and the
@@ -602,6 +639,7 @@ def evaluate_cases(P, cases):
     # produced - a trace, a manifest - back into the model: P.REQUESTS_NEED_IMPL)
     ires_all = []
     for c in cases:
+        set_debug_logging(case_wants_debug_logging(c))
         try:
             ires = with_alarm(getattr(P, "CASE_TIMEOUT", 20), P.impl, c)
         except Timeout:
